@@ -462,6 +462,57 @@ def check_attribute_gate(ctx):
               "the attribute's type is the class named by the declaration's type=", key='R-DOM.attribute-gate|type')
 
 
+def _is_required_names_getter_call(sm, f, it) -> bool:
+    """`self.G()` / `cls.G()` / `type(self).G()` where G is a classmethod of the same class that is a per-class lazy table of the NAMES of the type's
+    required attributes: every return hands out `cls.F`; every store of F in the whole program is in G and stores either
+    `[a.name for a in cls.TYPE.get_xsd_attributes() if a.is_required]` or, when the type is not complex (guard `cls.TYPE.get_xsd_tree().is_complex_type` [F]),
+    an empty list - which is what the unchanged check examines (non-complex types: nothing).  That the table is per class (own dictionary) and not edited after
+    the store is R-SHARED's obligation (C13 / C20), not repeated here."""
+    if not (isinstance(it, ast.Call) and not it.args and not it.keywords and isinstance(it.func, ast.Attribute)
+            and unparse(it.func.value) in ('self', 'cls', 'type(self)', 'self.__class__')) or f.cls is None:
+        return False
+    gf = f.cls.lookup(it.func.attr)
+    if gf is None or not gf.is_classmethod or len(gf.params) != 1:
+        return False
+    me = gf.params[0]
+    rets = [n for n in walk_local(gf.node) if isinstance(n, ast.Return)]
+    if not rets or not all(isinstance(r.value, ast.Attribute) and unparse(r.value.value) == me for r in rets):
+        return False
+    flds = {r.value.attr for r in rets}
+    if len(flds) != 1:
+        return False
+    fld = flds.pop()
+    gg = cfg_of(gf.node)
+    stores = []
+    for m in sm.modules.values():
+        if not m.name.startswith('musicxml') or '.tests' in m.name:
+            continue
+        for n in ast.walk(m.tree):
+            if isinstance(n, ast.Attribute) and n.attr == fld and isinstance(n.ctx, (ast.Store, ast.Del)):
+                stores.append(n)
+            if isinstance(n, ast.Call) and (dotted(n.func) or '') in ('setattr', 'delattr') and len(n.args) >= 2 and const_value(n.args[1]) == fld:
+                return False
+    own = [n for n in gg.stmt_nodes() if n.kind == 'stmt' and isinstance(n.ast, ast.Assign) and len(n.ast.targets) == 1
+           and isinstance(n.ast.targets[0], ast.Attribute) and n.ast.targets[0].attr == fld and unparse(n.ast.targets[0].value) == me]
+    if not own or len(own) != len(stores):
+        return False
+    full = False
+    for n in own:
+        v = n.ast.value
+        if isinstance(v, ast.ListComp) and len(v.generators) == 1 and not v.generators[0].is_async:
+            gen = v.generators[0]
+            tv = unparse(gen.target)
+            if unparse(gen.iter) == f"{me}.TYPE.get_xsd_attributes()" and unparse(v.elt) == f"{tv}.name" and [unparse(c) for c in gen.ifs] == [f"{tv}.is_required"]:
+                full = True
+                continue
+            return False
+        if isinstance(v, ast.List) and not v.elts:
+            if any(t.kind == 'test' and lab == 'F' and unparse(dom.expand(gg, t.ast, t)) == f"{me}.TYPE.get_xsd_tree().is_complex_type" for t, lab in dom.guards_of(gg, n)):
+                continue
+        return False
+    return full
+
+
 # ---------------------------------------------------------------------------------------------- A2
 def required_attributes(ctx):
     sm, res = ctx.sm, ctx.res
@@ -511,9 +562,14 @@ def required_attributes(ctx):
             continue
         # loops over `[a.name for a in <attributes> if a.is_required]`: their variable is a required attribute's name
         names_loop_vars = set()
+        names_getters = set()
         for t, lab in guards:
             if t.kind == 'for' and lab == 'loop' and isinstance(t.stmt.target, ast.Name):
                 it = t.stmt.iter
+                if _is_required_names_getter_call(sm, f, it):
+                    names_loop_vars.add(t.stmt.target.id)
+                    names_getters.add(unparse(it))
+                    continue
                 if isinstance(it, ast.Name):
                     ds_ = [d.ast.value for d in dom.assignments_to(g, it.id) if isinstance(d.ast, ast.Assign)]
                     it = ds_[0] if len(ds_) == 1 else it
@@ -527,7 +583,7 @@ def required_attributes(ctx):
                     src = ' '.join(unparse(d.ast.value) for d in dom.assignments_to(g, it.id) if isinstance(d.ast, ast.Assign))
                 tv = unparse(t.stmt.target)
                 filtered_in_guard = any(t2.kind == 'test' and unparse(t2.ast) == f"{tv}.is_required" and lab2 == 'T' for t2, lab2 in guards)
-                if 'self.TYPE.get_xsd_attributes()' in src and ('.is_required' in src or filtered_in_guard):
+                if 'self.TYPE.get_xsd_attributes()' in src and ('.is_required' in src or filtered_in_guard) or src in names_getters:
                     have_loop = True
                 else:
                     extra.append(f"for .. in {src}")
